@@ -97,6 +97,20 @@ E = [
  ("B30", "benign", [], G+"gzip.go", "\tif z.err != nil {\n\t\treturn z.err\n\t}\n\tif z.closed {\n\t\treturn nil\n\t}\n\tz.closed = true", "\tif z.err != nil {\n\t\treturn z.err\n\t}\n\tif !z.closed {\n\t\tz.closed = true\n\t} else {\n\t\treturn nil\n\t}"),
  ("B31", "benign", [], D+"huffmanonly.go", "\t\tif num == h.offset && final {\n\t\t\th.buf.flushLastByte()\n\t\t}", "\t\tif final {\n\t\t\tif num == h.offset {\n\t\t\t\th.buf.flushLastByte()\n\t\t\t}\n\t\t}"),
  ("B32", "benign", [], F+"huffcode.go", "\tif codeListLen == 0 {\n\t\tfor i := range t.shortCodeLookup {\n\t\t\tt.shortCodeLookup[i] = 0\n\t\t}\n\t\treturn\n\t}", "\tif codeListLen == 0 {\n\t\tt.shortCodeLookup = [1 << 12]uint32{}\n\t\treturn\n\t}"),
+ ("B33", "benign", [], F+"inflate.go", "\tif max > (1 << maxHuffTreeDepth) {\n\t\treturn errorNoInvalidBlock\n\t}\n\tfor i := 0; i < len(table); i++ {", "\tif uint64(max) > (1 << maxHuffTreeDepth) {\n\t\treturn errorNoInvalidBlock\n\t}\n\tfor i := 0; i < len(table); i++ {"),
+ ("B34", "benign", [], F+"decode.go", "\t\t\t} else if nextLit <= maxLitLenSym {", "\t\t\t} else if nextLit < maxLitLenSym+1 {"),
+ ("B35", "benign", [], F+"header.go", "\tstate.dynHdr.litCount = [maxLitLenCount]uint16{}\n", "\tfor i := range state.dynHdr.litCount {\n\t\tstate.dynHdr.litCount[i] = 0\n\t}\n"),
+ ("B36", "benign", [], D+"dynamic.go", "\tn = copy(c.buffer[c.end:2*c.windowSize+maxMatchLength], data)\n\tc.end += n\n\tif c.end < 2*c.windowSize+maxMatchLength {\n\t\treturn\n\t}\n\treturn n, true", "\tlimit := 2*c.windowSize + maxMatchLength\n\tn = copy(c.buffer[c.end:limit], data)\n\tc.end += n\n\tif c.end >= limit {\n\t\treturn n, true\n\t}\n\treturn n, false"),
+ ("B37", "benign", [], D+"huffmanonly.go", "\tif h.offset == h.max {\n\t\treturn n, true\n\t}\n\treturn n, false", "\tif h.offset >= h.max {\n\t\treturn n, true\n\t}\n\treturn n, false"),
+ ("B38", "benign", [], D+"dynamic.go", "\tif len(w.tokens) < maxTokenSize && !flush {\n\t\treturn\n\t}", "\tif !flush && len(w.tokens) < maxTokenSize {\n\t\treturn\n\t}"),
+ ("B39", "benign", [], F+"reader.go", "\tif ur, ok := under.(*bufio.Reader); ok {\n\t\tr.rBuf = ur\n\t} else {\n\t\tif r.rBuf != nil {\n\t\t\tr.rBuf.Reset(under)\n\t\t} else {\n\t\t\tr.rBuf = bufio.NewReader(under)\n\t\t}\n\t}\n", "\tur, ok := under.(*bufio.Reader)\n\tswitch {\n\tcase ok:\n\t\tr.rBuf = ur\n\tcase r.rBuf != nil:\n\t\tr.rBuf.Reset(under)\n\tdefault:\n\t\tr.rBuf = bufio.NewReader(under)\n\t}\n"),
+ ("B40", "benign", [], Z+"writer.go", "\tz.wroteHeader = true\n\t// ZLIB has a two-byte header (as documented in RFC 1950).", "\t// ZLIB has a two-byte header (as documented in RFC 1950).\n\tz.wroteHeader = true"),
+ ("B41", "benign", [], F+"decode_amd64.s", "invalid_look_back_distance:\n        SUBQ R15, R10\n        MOVQ $-3, AX", "invalid_look_back_distance:\n        MOVQ $-3, AX\n        SUBQ R15, R10"),
+ ("B42", "benign", [], D+"encode_amd64.go", "\tif len(tokens) == 0 {\n\t\treturn 0\n\t}", "\tif len(tokens) < 1 {\n\t\treturn 0\n\t}"),
+ ("B43", "benign", [], F+"decode.go", "\t\t\t\tif lookBackDist >= repeatLength {\n\t\t\t\t\tcopy(output[written:], output[written-lookBackDist:written-lookBackDist+repeatLength])\n\t\t\t\t} else {\n\t\t\t\t\tbyteCopy(output, written, lookBackDist, repeatLength)\n\t\t\t\t}", "\t\t\t\tif repeatLength > lookBackDist {\n\t\t\t\t\tbyteCopy(output, written, lookBackDist, repeatLength)\n\t\t\t\t} else {\n\t\t\t\t\tcopy(output[written:], output[written-lookBackDist:written-lookBackDist+repeatLength])\n\t\t\t\t}"),
+ ("B44", "benign", [], F+"huffcode.go", "\tfor _, index := range ctx.codeList[start:end] {\n\t\tsym := indexToSym(index)", "\tfor _, index := range ctx.codeList[start:end] {\n\t\tsym := index\n\t\tif index == 513 {\n\t\t\tsym = 512\n\t\t}"),
+ ("B45", "benign", [], F+"header.go", "\tstate.litLenTable = staticLitHuffCode\n\tstate.distTable = staticDistHuffCode", "\tstate.litLenTable.shortCodeLookup = staticLitHuffCode.shortCodeLookup\n\tstate.litLenTable.longCodeLookup = staticLitHuffCode.longCodeLookup\n\tstate.distTable = staticDistHuffCode"),
+ ("B46", "benign", [], D+"huffmanonly.go", "\tif final && h.offset == 0 {\n\t\th.buf.writeFinalEmptyBlock()", "\tif h.offset == 0 && final {\n\t\th.buf.writeFinalEmptyBlock()"),
 ]
 
 def sh(cmd, cwd=None):
